@@ -108,4 +108,31 @@ def many_restricted_desc(rng):
     return desc, {"many_restricted": True, "filters": True}
 
 
-TEMPLATES = {"many_restricted": many_restricted_desc, "many_categories": many_categories_desc, "int_utility": int_utility_desc, "stateless": stateless_desc, "stateless_noperiod": stateless_noperiod_desc}
+def off_grid_optimum_desc(rng):
+    """The unconstrained optimum of every period problem lies OUTSIDE the continuous choice grid
+    (bliss point below the first or above the last grid point, also at 0), so the maximum over the
+    grid is attained at a boundary point and any off-grid evaluation point (0, a padded or
+    extrapolated point) would win. Choice grids of 3..700 points."""
+    n = int([rng.integers(3, 12), rng.integers(257, 700), rng.integers(120, 257), rng.integers(513, 700)][int(rng.integers(0, 4))])
+    start = round(float(rng.uniform(0.8, 3.0)), 4)
+    stop = round(start + float(rng.uniform(1.0, 6.0)), 4)
+    below = rng.random() < 0.7
+    bliss = round(float(rng.uniform(0.0, 0.45 * start)), 4) if below else round(stop + float(rng.uniform(0.5, 3.0)), 4)
+    if below and rng.random() < 0.3:
+        bliss = 0.0
+    nw = int(rng.integers(3, 7))
+    T = int(rng.integers(2, 4))
+    fns = [["utility", ["c", "w", "d", "bliss"], "-(c - bliss) ** 2 + 0.1 * xp.sqrt(w) - 0.05 * d * c"],
+           ["next_w", ["w", "c", "d"], "0.9 * w + 0.2 * c + 0.5 * d"],
+           ["bc_constraint", ["c", "w", "d"], f"c <= w + {round(stop + 1.0, 4)} + d"]]
+    params = {"beta": round(float(rng.uniform(0.5, 0.99)), 4), "utility": {"bliss": bliss}, "next_w": {}, "bc_constraint": {}}
+    choices = [["c", {"kind": "lin" if rng.random() < 0.7 else "log", "start": start, "stop": stop, "n": n}], ["d", {"kind": "disc", "n": 2}]]
+    if rng.random() < 0.5:
+        choices.reverse()
+    desc = {"n_periods": T, "states": [["w", {"kind": "lin", "start": 1.0, "stop": 30.0, "n": nw}]], "choices": choices,
+            "functions": [fns[i] for i in rng.permutation(len(fns))], "stochastic": [], "tables": {}, "params": params}
+    return desc, {"off_grid_optimum": True, "long_choice_axis": n > 256}
+
+
+TEMPLATES = {"many_restricted": many_restricted_desc, "many_categories": many_categories_desc, "int_utility": int_utility_desc, "stateless": stateless_desc, "stateless_noperiod": stateless_noperiod_desc,
+             "off_grid_optimum": off_grid_optimum_desc}
